@@ -1,7 +1,7 @@
 open Common
 (* ---------------- control-flow analyzer model (C10/C11) ----------------
    Input line:  FIXMASK PROGRAM
-     FIXMASK  = 1*fixA + 2*fixB + 4*fixC + 8*fixD   (0 = the faithful model)
+     FIXMASK  = 1*fixA + 2*fixB + 4*fixC + 8*fixD + 16*fixE   (0 = the faithful model)
      PROGRAM  = getter(0/1) p_start p_pb STMTS
      STMTS    = count STMT*
      EXPR     = 0 id | 1 id | 2 | 3                (ident | call | literal | this)
@@ -11,6 +11,8 @@ open Common
               | 10 p COND STMT | 11 p COND STMT STMT | 12 p COND STMT | 13 p STMT COND
               | 14 p OPT(COND) STMT | 15 p STMT | 16 p STMT | 17 p CASES | 18 p label STMT
               | 19 p bp STMTS OPT(cp hbp) STMTS OPT(fp) STMTS
+              | 20 p gp pb STMTS                   (`({get a() {..}});`)
+              | 21 p getter(0/1) fp pb STMTS STMT  (`for (const [k = FN] of o) STMT`)
      CASES    = count (cp OPT(EXPR) ft_comment STMTS)*     (test expression; none = default)                                  *)
 let read_expr () =
   match next_int () with
@@ -57,6 +59,11 @@ let rec read_stmt () : Syntax.stmt =
       let f = read_opt read_n in
       let fb = read_stmts () in
       Syntax.STry (p, bp, blk, h, hb, f, fb)
+  | 20 -> let gp = read_n () in let pb = read_n () in let b = read_stmts () in Syntax.SGetterStmt (p, gp, pb, b)
+  | 21 ->
+      let g = read_bool () in let fp = read_n () in let pb = read_n () in
+      let hb = read_stmts () in let b = read_stmt () in
+      Syntax.SForHead (p, g, fp, pb, hb, b)
   | _ -> failwith "stmt"
 and read_stmts () : Syntax.stmts = stmts_of (read_list read_stmt)
 and read_cases () : Syntax.cases =
@@ -66,15 +73,15 @@ and read_cases () : Syntax.cases =
 
 let read_fixes () =
   let m = next_int () in
-  { Analyzer.fixA = m land 1 <> 0; fixB = m land 2 <> 0; fixC = m land 4 <> 0; fixD = m land 8 <> 0 }
+  { Analyzer.fixA = m land 1 <> 0; fixB = m land 2 <> 0; fixC = m land 4 <> 0; fixD = m land 8 <> 0; fixE = m land 16 <> 0 }
 let read_program () =
   let g = read_bool () in let ps = read_n () in let pb = read_n () in let b = read_stmts () in
   { Syntax.p_getter = g; p_start = ps; p_pb = pb; p_body = b }
 
 let sorted_ns l = L.sort compare (L.map int_of_n l)
 
-(* output: wf panic INFO no-unreachable getter-return no-fallthrough, where INFO = count followed by
-   offset unreachable tag ret throw inf for each entry *)
+(* output: wf panic INFO no-unreachable getter-return no-fallthrough getter-return-panics, where INFO = count
+   followed by offset unreachable tag ret throw inf for each entry *)
 let run_analyze () =
   let fx = read_fixes () in
   let p = read_program () in
@@ -92,9 +99,10 @@ let run_analyze () =
   out_list (fun (k, u, tag, r, t, f) -> out_int k; out_bool u; out_int tag; out_bool r; out_bool t; out_bool f) entries;
   out_list out_int (sorted_ns (Analyzer.no_unreachable_on i p));
   out_list out_int (sorted_ns (Analyzer.getter_return_on i p));
-  out_list out_int (sorted_ns (Analyzer.no_fallthrough_on i p))
+  out_list out_int (sorted_ns (Analyzer.no_fallthrough_on i p));
+  out_bool (Analyzer.getter_return_panics_on i p)
 
-(* wf  C10-violations  C11-getter-violation  C11-case-violations  can_fall_off  reach *)
+(* wf  C10-violations  C11-getter-violation  C11-case-violations  can_fall_off  reach  C11-getter-violations(all getters) *)
 let run_oracle () =
   let fx = read_fixes () in
   let p = read_program () in
@@ -103,7 +111,8 @@ let run_oracle () =
   out_bool (Oracle.c11_getter_violation fx p);
   out_list out_int (sorted_ns (Oracle.c11_case_violations fx p));
   out_bool (SemDecide.prog_can_fall_off p);
-  out_list out_int (sorted_ns (SemDecide.prog_reach p))
+  out_list out_int (sorted_ns (SemDecide.prog_reach p));
+  out_list out_int (sorted_ns (Oracle.c11_getter_violations_all fx p))
 
 (* ghost analyzer against the map-based one: states equal, logged flags / list-element reasons = map entries,
    reason of the body block = entry of the body *)
@@ -121,7 +130,7 @@ let run_ghost () =
   out_bool ((match find p.Syntax.p_pb with Some m -> m.Analyzer.m_end | None -> None) = r)
 
 (* purely semantic facts (the analyzer model is not involved; the fix mask is read and ignored):
-   wf  no_fn_stmt  reach  falls  fall-through-able cases *)
+   wf  no_fn_stmt  reach  falls  fall-through-able cases  getters that can fall off their end *)
 let run_sem () =
   let _ = read_fixes () in
   let p = read_program () in
@@ -129,6 +138,7 @@ let run_sem () =
   out_bool (Syntax.no_fn_stmtb p);
   out_list out_int (sorted_ns (SemDecide.prog_reach p));
   out_bool (SemDecide.prog_can_fall_off p);
-  out_list out_int (sorted_ns (Oracle.sem_fallthrough_cases p))
+  out_list out_int (sorted_ns (Oracle.sem_fallthrough_cases p));
+  out_list out_int (sorted_ns (Oracle.sem_falling_getters p))
 
 let () = main [("analyze", run_analyze); ("oracle", run_oracle); ("ghost", run_ghost); ("sem", run_sem)]
